@@ -142,13 +142,17 @@ CHECKS = {
    text="Per oriented model the 1-D function (Fq or Iq, quadrature loops summarised as Sigma terms) and the 2-D function (Iqac/Iqabc) "
         "are executed symbolically from clang's AST of the generated source; the claim 'F2_1d = SUM_n c_n I2d(q n_n) with unit "
         "directions n_n and node weights c_n independent of q and the shape parameters' is proved as a polynomial identity on the "
-        "Sigma-normal-form summand for symbolic node indices, with the unit directions discovered among the sin/cos and "
-        "(sqrt(1-u^2), u) atoms of the summand.  Coverage is per model and reported in the evidence (models under contract vs "
-        "bounded numeric stand-in vs not checked).",
-   note="models whose 1-D and 2-D functions are formulated independently (or whose Fq leaves the subset, or whose direction search "
-        "exceeds its time budget) get a bounded numeric stand-in (independent Gauss-Legendre orientation average of the compiled "
-        "2-D kernel, converged points only), never counted as proved; paracrystals have no reliable numeric reference and are NOT "
-        "CHECKED unless the identity closes; accuracy of the model's own quadrature is not claimed; two recorded known findings",
+        "Sigma-normal-form summand for symbolic node indices, with the unit directions discovered among the sin/cos, "
+        "(sqrt(1-u^2), u) and half-angle atoms of the summand (square roots in canonical form; inner quadrature helpers shared by "
+        "both functions enter through their contract).  SUM_n c_n = 1 and c_n >= 0 are ground obligations evaluated over every "
+        "node of the quadrature tables in the generated source.  Coverage is per model and reported in the evidence (19 of 21 "
+        "models under contract on the unchanged tree; the other two are the recorded findings).",
+   note="a model whose identity does not close (independent formulations, Fq outside the subset, search budget) falls back to a "
+        "bounded numeric stand-in (independent Gauss-Legendre orientation average of the compiled 2-D kernel, converged points "
+        "only), never counted as proved; paracrystals have no reliable numeric reference and are NOT CHECKED if their identity "
+        "does not close; shared helpers: body not interpreted, frame (reads only parameters, locals, const tables) checked on the "
+        "AST; sqrt(v^2 P) = v sqrt(P) used for q and parameters with lower limit >= 0; node weights in float64; accuracy of the "
+        "model's own quadrature is not claimed; two recorded known findings",
    technique=TECH + "clang JSON AST -> Sigma-normal forms -> polynomial identities (complete normal form); numeric orientation-average replay",
    design="DESIGN.md 6 C12"),
  "C13": dict(engine="symcheck",
